@@ -112,9 +112,11 @@ def compare_cells(actual, exp_cells, label):
 
 # ------------------------------------------------------------ forward 1-D
 def w_fwd1d(S, item):
-    mode, L, N, J, nb, c = item
+    mode, L, N, J, nb, c = item[:6]
+    form = item[6] if len(item) > 6 else 'name'
+    wave, (r_lo, r_hi) = wave_spec_1d(form, L, 'dec')
     res = {'cmp': 0, 'diff': 0, 'findings': [], 'sample': None}
-    inst = S.construct(T1, 'DWT1DForward', J=J, wave=wname(L), mode=mode)
+    inst = S.construct(T1, 'DWT1DForward', J=J, wave=wave, mode=mode)
     b, x = base_tensor('x', nb, c, [N])
     o = S.run(S.method(inst, 'forward'), x)
     lens = level_lengths(N, L, mode, J)
@@ -136,8 +138,8 @@ def w_fwd1d(S, item):
     else:
         for j in range(J):
             rule = spec.dwt_rule(len(cur), L, mode)
-            lo = spec.apply_rule(cur, rule, role(L, 'dec_lo'))
-            hi = spec.apply_rule(cur, rule, role(L, 'dec_hi'))
+            lo = spec.apply_rule(cur, rule, r_lo)
+            hi = spec.apply_rule(cur, rule, r_hi)
             exp = {(n, ci): expected_cell(b, (n, ci), [hi]) for n in range(nb) for ci in range(c)}
             if not isinstance(yh[j], DataT) or list(yh[j].shape) != [nb, c, len(hi)]:
                 problems.append(('shape', 'highpass level %d has shape %s, reference %s'
@@ -172,8 +174,9 @@ def _coarse(what):
 # ------------------------------------------------------------ forward 2-D
 def wave_spec(kind, Lc, Lr):
     """returns (wave argument, roles dict axis-> (lo role, hi role)) for analysis ('dec') filters"""
-    if kind == 'name':
-        return wname(Lc), {'col': (role(Lc, 'dec_lo'), role(Lc, 'dec_hi')), 'row': (role(Lc, 'dec_lo'), role(Lc, 'dec_hi'))}
+    if kind in ('name', 'object'):
+        w = wname(Lc) if kind == 'name' else wavelet_object(Lc)
+        return w, {'col': (role(Lc, 'dec_lo'), role(Lc, 'dec_hi')), 'row': (role(Lc, 'dec_lo'), role(Lc, 'dec_hi'))}
     if kind == 'tuple2':
         w = (user_filter('0', Lc), user_filter('1', Lc))
         return w, {'col': (('user', '0'), ('user', '1')), 'row': (('user', '0'), ('user', '1'))}
@@ -184,9 +187,24 @@ def wave_spec(kind, Lc, Lr):
 
 
 def wave_spec_rec(kind, Lc, Lr):
-    if kind == 'name':
-        return wname(Lc), {'col': (role(Lc, 'rec_lo'), role(Lc, 'rec_hi')), 'row': (role(Lc, 'rec_lo'), role(Lc, 'rec_hi'))}
+    if kind in ('name', 'object'):
+        w = wname(Lc) if kind == 'name' else wavelet_object(Lc)
+        return w, {'col': (role(Lc, 'rec_lo'), role(Lc, 'rec_hi')), 'row': (role(Lc, 'rec_lo'), role(Lc, 'rec_hi'))}
     return wave_spec(kind, Lc, Lr)
+
+
+def wavelet_object(L):
+    """the pywt.Wavelet instance itself (second documented form of `wave`)"""
+    from ..fakelibs import AbstractWavelet
+    return AbstractWavelet(wname(L), L)
+
+
+def wave_spec_1d(kind, L, which):
+    """(wave argument, (lo role, hi role)) for the 1-D modules; which = 'dec' | 'rec'"""
+    if kind == 'tuple2':
+        return (user_filter('0', L), user_filter('1', L)), (('user', '0'), ('user', '1'))
+    w = wname(L) if kind == 'name' else wavelet_object(L)
+    return w, (role(L, which + '_lo'), role(L, which + '_hi'))
 
 
 def expected_fwd2d_level(th, tw, Lc, Lr, mode, roles):
@@ -295,13 +313,15 @@ def expected_inv1d(bl, hs, lens, L, mode, roles, present):
 
 
 def w_inv1d(S, item):
-    mode, L, N, J, nb, c, none_mask = item
+    mode, L, N, J, nb, c, none_mask = item[:7]
+    form = item[7] if len(item) > 7 else 'name'
+    wave, roles_1d = wave_spec_1d(form, L, 'rec')
     res = {'cmp': 1, 'diff': 0, 'findings': [], 'sample': None}
     lens = level_lengths(N, L, mode, J)
     cond = size_cond(lens[:-1], L, mode)
     if none_mask and cond == 'Ne>=L':
         cond += ',odd-level' if any(n % 2 for n in lens[:-1]) else ',even-levels'
-    inst = S.construct(T1, 'DWT1DInverse', wave=wname(L), mode=mode)
+    inst = S.construct(T1, 'DWT1DInverse', wave=wave, mode=mode)
     (bl, yl), hs = pyramid_bases_1d(nb, c, lens)
     present = [not (none_mask >> j) & 1 for j in range(J)]
     highs = ArgList([h[1] if p else None for h, p in zip(hs, present)])
@@ -313,7 +333,7 @@ def w_inv1d(S, item):
         res['findings'].append(exc_finding(S, o, construct, '%s:%s' % (mode, cond)))
         return res
     y = o.value
-    roles = (role(L, 'rec_lo'), role(L, 'rec_hi'))
+    roles = roles_1d
     exp_terms = expected_inv1d(bl, hs, lens, L, mode, roles, present)
     problems = []
     if exp_terms is None:
